@@ -625,6 +625,8 @@ class MarkdownNormalizer(Renderer):
             # An empty item is still an item: emit its marker (nothing else would).
             result += self._prefix.rstrip() + "\n"
             self._prefix = self._second_prefix
+            # Like any other content, the marker line ends a pending "no separator here".
+            self._suppress_item_break = False
             return result
 
         if isinstance(element.children[0], block.List):
